@@ -75,7 +75,7 @@ def cfg(c, spec="Spec", invs=(), props=(), view=True, post=None):
 
 
 # ------------------------------------------------------------------ TLC runs
-def mc_design(name, c, workers, timeout=900):
+def mc_design(name, c, workers, timeout=2400):
     res = vlib.run_tlc("SQLTx", "mc.cfg", workers=workers, timeout=timeout, files=[("mc.cfg", cfg(c, invs=INVS, props=PROPS))], tag="sqltx-mc", javaopts=JOPTS)
     vlib.tlc_must_pass(res, "SQLTx design model [%s]" % name)
     return res
@@ -132,7 +132,7 @@ def fix_steps(steps):
     return steps
 
 
-def simulate(c, num, seed, timeout=600):
+def simulate(c, num, seed, timeout=1800):
     c = dict(c, EmitDepth=1)
     depth = c["NS"] * c["MaxStmts"] + 3
     res = vlib.run_tlc("SQLTx", "sim.cfg", workers=1, timeout=timeout, javaopts=JOPTS, extra=["-simulate", "num=%d" % num, "-depth", str(depth), "-seed", str(seed)],
@@ -284,7 +284,7 @@ UNIQ_HIST_ALL = {"plain", "other-updated", "after-delete", "reinserted", "other-
 
 def uniq_cases(idx, hists, out):
     text = ('CONSTANTS\n  IdxName = "%s"\n  Histories = %s\n  OutFile = "%s"\nINIT Init\nNEXT Next\nCHECK_DEADLOCK FALSE\n' % (idx, tla(hists), out))
-    res = vlib.run_tlc("SQLUniq", "uniq.cfg", workers=1, timeout=600, files=[("uniq.cfg", text)], tag="sqluniq", javaopts=JOPTS)
+    res = vlib.run_tlc("SQLUniq", "uniq.cfg", workers=1, timeout=1800, files=[("uniq.cfg", text)], tag="sqluniq", javaopts=JOPTS)
     vlib.tlc_must_pass(res, "SQLUniq[%s]" % idx)
     facts = {}
     for line in res.out.splitlines():
@@ -374,7 +374,7 @@ def cat_consts(**kw):
 
 
 def cat_design(name, c, workers):
-    res = vlib.run_tlc("SQLCat", "cat.cfg", workers=workers, timeout=900, files=[("cat.cfg", cat_cfg(c))], tag="sqlcat-mc", javaopts=JOPTS)
+    res = vlib.run_tlc("SQLCat", "cat.cfg", workers=workers, timeout=2400, files=[("cat.cfg", cat_cfg(c))], tag="sqlcat-mc", javaopts=JOPTS)
     vlib.tlc_must_pass(res, "SQLCat design [%s]" % name)
     return res
 
@@ -399,7 +399,7 @@ def cat_fix(steps):
 
 def cat_simulate(c, num, seed):
     c = dict(c, EmitDepth=1)
-    res = vlib.run_tlc("SQLCat", "cat.cfg", workers=1, timeout=600, javaopts=JOPTS, tag="sqlcat-sim",
+    res = vlib.run_tlc("SQLCat", "cat.cfg", workers=1, timeout=1800, javaopts=JOPTS, tag="sqlcat-sim",
                        extra=["-simulate", "num=%d" % num, "-depth", str(c["NS"] * c["MaxStmts"] + 3), "-seed", str(seed)],
                        files=[("cat.cfg", cat_cfg(c, spec="RSpec", invs=CAT_INVS + ["Emit"], view=False))])
     if res.error or res.violation:
